@@ -139,7 +139,7 @@ PROPS = {
         technique="fault enumeration over the syscall seam: every descriptor-creating scenario re-run with each of its system calls failing or answering a non-error deviation (each errno class; all pairs in the thorough tier), parent and forked child, from three descriptor-table start states, with argument-domain extremes, in builds with and without alloc; shadow descriptor/mapping table cross-checked with /proc/self/fd",
         steps=[_s("h-fd", "c12"),
                _s("h-fd-noalloc", "c12-noalloc", bin="h-fd-noalloc", cwd="/verif/engines/h-fd/noalloc", name="c12-noalloc")],
-        assumptions=["a descriptor handed to Command via Stdio::RawFd is consumed by spawn (closing it is accepted)",
+        assumptions=["a descriptor named by Stdio::RawFd is only lent: Command::spawn and the no-alloc process::spawn must leave it open in the parent, referring to the same file with the same status and descriptor flags, on every path (Ok, Err, every injected deviation); closing it is reported as closes-foreign-fd; the harness closes the RawFds it created after judging; ownership is transferred only by File::from_raw_fd / OwnedFd::from_raw",
                      "short transfer counts, munmap failures and triples of faults are not enumerated"],
     ),
 
